@@ -127,8 +127,8 @@ func (f *distrFam) track(addr string) { f.tracked[addr] = true }
 func (f *distrFam) trackAccount(a distrtypes.Account) {
 	switch a.Type {
 	case distrtypes.BaseAccount:
-		if _, err := sdk.AccAddressFromBech32(a.Id); err == nil {
-			f.track(a.Id)
+		if aa, err := sdk.AccAddressFromBech32(a.Id); err == nil {
+			f.track(aa.String()) // canonical spelling (an all-upper-case id is the same account)
 		}
 	case distrtypes.ModuleAccount:
 		if _, ok := c4eapp.GetMaccPerms()[a.Id]; ok {
